@@ -301,6 +301,7 @@ def systematic():
     out += forelse_programs()
     out += nested_ann_programs()
     out += matrix_row_programs()
+    out += struct_programs()
     return out
 
 
@@ -414,6 +415,66 @@ def matrix_row_programs():
             k += 1
             out.append((f"matrow:sum:{n}x{m}", f"def mr_{k}(m: Qmatrix[Qint[2], {n}, {m}]) -> Qint[4]:\n\treturn sum(m[{c}])"))
             k += 1
+    return out
+
+
+# ---- tuple `!=` (repaired 6b91624: it meant "every bit differs") and subscript chains that stop at a tuple (repaired
+# 6b971e4: `m[0]` evaluated to the undefined symbol `m.0`) ------------------------------------------------------------------
+def struct_programs():
+    out, k = [], 0
+    # tuple != with bool / Qint / mixed leaves, 1..3 elements (Tuple[bool] alone is refused by the annotation pass)
+    shapes = [("q1", "Tuple[Qint[2]]"), ("bb", "Tuple[bool, bool]"),
+              ("qq", "Tuple[Qint[2], Qint[2]]"), ("bq", "Tuple[bool, Qint[2]]"), ("qb", "Tuple[Qint[2], bool]"),
+              ("bqb", "Tuple[bool, Qint[2], bool]"), ("qqb", "Tuple[Qint[2], Qint[3], bool]"),
+              ("bbb", "Qlist[bool, 3]"), ("ql", "Qlist[Qint[2], 2]")]
+    for n, t in shapes:
+        out.append((f"tupneq:{n}", f"def tn_{k}(a: {t}, b: {t}) -> bool:\n\treturn a != b"))
+        k += 1
+    out.append(("tupneq:lit", f"def tn_{k}(a: Tuple[bool, bool], c: bool, d: bool) -> bool:\n\treturn a != (c, d)"))
+    k += 1
+    out.append(("tupneq:lit-left", f"def tn_{k}(a: Tuple[bool, bool], c: bool) -> bool:\n\treturn (c, not c) != a"))
+    k += 1
+    out.append(("tupneq:in-expr", f"def tn_{k}(a: Tuple[bool, Qint[2]], b: Tuple[bool, Qint[2]], c: bool) -> bool:\n"
+                                  f"\treturn (a != b) and c or (a == b) and not c"))
+    k += 1
+    out.append(("tupneq:ifexp", f"def tn_{k}(a: Tuple[Qint[2], bool], b: Tuple[Qint[2], bool]) -> Qint[2]:\n"
+                                f"\treturn a[0] if a != b else b[0] + 1"))
+    k += 1
+    out.append(("tupneq:if", f"def tn_{k}(a: Tuple[Qint[2], Qint[2]], b: Tuple[Qint[2], Qint[2]]) -> Qint[2]:\n"
+                             f"\tr = 0\n\tif a != b:\n\t\tr = a[1]\n\telse:\n\t\tr = b[0]\n\treturn r"))
+    k += 1
+    out.append(("tupneq:copy", f"def tn_{k}(a: Tuple[bool, Qint[2]], b: Tuple[bool, Qint[2]]) -> bool:\n"
+                               f"\tu = a\n\tv = b\n\treturn u != v"))
+    k += 1
+    # a subscript chain that stops at a tuple: a row of a matrix, an element of a nested tuple / of a list of tuples
+    mats = [("mb22", "Qmatrix[bool, 2, 2]", "Qlist[bool, 2]", "bool", 1),
+            ("mb23", "Qmatrix[bool, 2, 3]", "Qlist[bool, 3]", "bool", 1),
+            ("mq22", "Qmatrix[Qint[2], 2, 2]", "Qlist[Qint[2], 2]", "Qint[2]", 1),
+            ("nest", "Tuple[Tuple[bool, Qint[2]], Tuple[bool, Qint[2]]]", "Tuple[bool, Qint[2]]", "Qint[2]", 1),
+            ("lot", "Qlist[Tuple[Qint[2], bool], 2]", "Tuple[Qint[2], bool]", "Qint[2]", 0)]
+    for n, t, row, leaf, idx in mats:
+        out.append((f"subtup:copy:{n}", f"def st_{k}(m: {t}) -> {leaf}:\n\tr = m[0]\n\treturn r[{idx}]"))
+        k += 1
+        out.append((f"subtup:copy2:{n}", f"def st_{k}(m: {t}) -> {leaf}:\n\tr = m[1]\n\ts = r\n\treturn s[{idx}]"))
+        k += 1
+        out.append((f"subtup:eq:{n}", f"def st_{k}(m: {t}) -> bool:\n\treturn m[0] == m[1]"))
+        k += 1
+        out.append((f"subtup:neq:{n}", f"def st_{k}(m: {t}) -> bool:\n\treturn m[0] != m[1]"))
+        k += 1
+        out.append((f"subtup:ret:{n}", f"def st_{k}(m: {t}) -> {row}:\n\treturn m[0]"))
+        k += 1
+        out.append((f"subtup:ret1:{n}", f"def st_{k}(m: {t}) -> {row}:\n\treturn m[1]"))
+        k += 1
+        out.append((f"subtup:ifexp:{n}", f"def st_{k}(m: {t}, c: bool) -> {row}:\n\treturn m[0] if c else m[1]"))
+        k += 1
+        out.append((f"subtup:pair:{n}", f"def st_{k}(m: {t}) -> Tuple[{row}, {row}]:\n\treturn (m[1], m[0])"))
+        k += 1
+    out.append(("subtup:deep", f"def st_{k}(m: Tuple[Tuple[Tuple[bool, bool], Qint[2]], bool]) -> bool:\n"
+                               f"\tr = m[0]\n\ts = r[0]\n\treturn s[1] and m[1]"))
+    k += 1
+    out.append(("subtup:deep-eq", f"def st_{k}(m: Tuple[Tuple[Tuple[bool, bool], Qint[2]], Tuple[bool, bool]]) -> bool:\n"
+                                  f"\treturn m[0][0] == m[1]"))
+    k += 1
     return out
 
 
@@ -1121,8 +1182,19 @@ def run_a2a_forms(ctx, lib, res, stats):
     a2a_stats(stats)["rewrite_forms"] = len(cases)
 
 
+def _has_value_subscript(src):
+    """a subscript with a non-constant index in the *body* of the function (annotations like Qint[2] do not count)"""
+    fn = ast.parse(src).body[0]
+    for st in fn.body:
+        for n_ in ast.walk(st):
+            if isinstance(n_, ast.Subscript) and not isinstance(n_.slice, ast.Constant):
+                return True
+    return False
+
+
 def check_semw(res, c, sem, m, aq, stats):
-    """the Lean reference semantics SemW (lean/QV/Model/Sem.lean, the one the theorem C01_expr speaks of) against
+    """the Lean reference semantics SemW / SemT (lean/QV/Model/Sem.lean, SemT.lean: the ones the theorems C01_expr /
+    C01_expr_struct speak of; SemT = SemW widened to tuples and Qchar) against
     (a) the independent python oracle: every bit pysem claims (exact, or low bits of wrap-around arithmetic) must be
         SemW's bit;  (b) the Lean translator model without quirks reached: all bits, every row (what C01_expr proves
         on its fragment, observed on the wider one).  Rows where SemW gives no meaning (outside its fragment) are
@@ -1138,6 +1210,26 @@ def check_semw(res, c, sem, m, aq, stats):
     if any(r is not None for r in rows):
         stats["semw_defined_programs"] += 1
     stats["semw_rows_undefined"] += sum(1 for r in rows if r is None)
+    # `rows` is the widened semantics SemT (tuples, Qchar; lean/QV/Model/SemT.lean); the driver has checked that it
+    # equals SemW wherever SemW alone gives a meaning (`semw_rows_defined` rows).  Which programs the theorems cover:
+    # C01_body (straightLine) / C01_body_struct (structLine + wellProg on every row), accepted by the model
+    for k_ in ("semw_only_defined_programs", "semt_rows_beyond_semw", "thm_straight_line_programs",
+               "thm_struct_line_programs", "thm_struct_not_straight_programs"):
+        stats.setdefault(k_, 0)
+    if sem.get("semw_rows_defined"):
+        stats["semw_only_defined_programs"] += 1
+    stats["semt_rows_beyond_semw"] += sum(1 for r in rows if r is not None) - (sem.get("semw_rows_defined") or 0)
+    accepted = m is not None and "error" not in m and "driver_error" not in m
+    if accepted and sem.get("straight_line"):
+        stats["thm_straight_line_programs"] += 1
+    if accepted and sem.get("struct_line") and sem.get("well"):
+        stats["thm_struct_line_programs"] += 1
+        if not sem.get("straight_line"):
+            stats["thm_struct_not_straight_programs"] += 1
+            if any(r is None for r in rows):
+                res.disagree(case_json(c), "Lean SemT gives no meaning to a program that satisfies every hypothesis of "
+                             "C01_body_struct (the statement of the theorem fails on this input)", model=rows[:4])
+                return
     # (a) against pysem
     if c.expected is not None and c.oracle == "ok" and len(c.expected) == len(rows):
         for k, (exp, got) in enumerate(zip(c.expected, rows)):
@@ -1165,20 +1257,49 @@ def check_semw(res, c, sem, m, aq, stats):
     if exact is None:
         res.disagree(case_json(c), "Lean Sem: the driver reply has no 'exact' rows", model=sorted(sem))
         return
+    try:
+        var_index = _has_value_subscript(c.src)
+    except (SyntaxError, IndexError, AttributeError):
+        var_index = False
     if c.expected is not None and c.oracle == "ok" and c.exact is not None and len(c.exact) == len(exact) \
             and len(c.expected) == len(exact):
         for k, (py, lean, exp) in enumerate(zip(c.exact, exact, c.expected)):
-            if lean is None or py is None:
+            if lean is None:
                 stats["sem_rows_undefined"] += 1
                 continue
-            stats["sem_rows"] += 1
             lx, lk, lclaim, linr = lean
             pclaim = "".join("?" if e_ is None else ("1" if e_ else "0") for e_ in exp)
+            if py is None:
+                # Qchar / tuple return: the widened exact semantics (lean/QV/Model/SemXT.lean) claims leaf by leaf;
+                # pysem's claimed bits must be the same string, and every claimed bit must be SemT's bit
+                stats.setdefault("sem_struct_rows", 0)
+                stats["sem_struct_rows"] += 1
+                if lclaim != pclaim:
+                    res.disagree(case_json(c, row=k, args=row_values(c.prog, k)),
+                                 "Lean SemXT (tuple / Qchar return) claims other bits than the python oracle",
+                                 model=lclaim, expected=pclaim)
+                    return
+                got = rows[k]
+                if got is not None and any(ch != "?" and ch != g for ch, g in zip(lclaim, got)):
+                    res.disagree(case_json(c, row=k), "Lean SemT differs from Lean SemXT on a claimed bit "
+                                 "(the statement of C01_straightline_struct fails on this input)", semt=got, sem=lclaim)
+                    return
+                continue
+            stats["sem_rows"] += 1
             if linr:
                 stats["sem_inrange_rows"] += 1
             elif lk:
                 stats["sem_lowbit_rows"] += 1
-            if (lx, lk, lclaim, linr) != (py[0], py[1], pclaim, py[1] is None):
+            if var_index:
+                # `t[i]` with a variable index: python raises IndexError where `i` is out of range (the oracle claims
+                # nothing there), the tree ast2ast leaves is an if-chain that ends in the last element and Lean Sem
+                # is the meaning of that tree: it may claim more.  Wherever the oracle claims, both must agree.
+                if lx != py[0] and py[1] is None or any(p_ != "?" and p_ != l_ for p_, l_ in zip(pclaim, lclaim)):
+                    res.disagree(case_json(c, row=k, args=row_values(c.prog, k)),
+                                 "Lean Sem differs from the python oracle on a claimed bit (variable subscript)",
+                                 model=[lx, lk, lclaim, linr], expected=[py[0], py[1], pclaim, py[1] is None])
+                    return
+            elif (lx, lk, lclaim, linr) != (py[0], py[1], pclaim, py[1] is None):
                 res.disagree(case_json(c, row=k, args=row_values(c.prog, k)),
                              "Lean Sem / inRange differs from the python oracle (value, claimed low bits, claim, in-range flag)",
                              model=[lx, lk, lclaim, linr], expected=[py[0], py[1], pclaim, py[1] is None])
